@@ -22,7 +22,11 @@ static REF_MPI h_mpi = NULL;
 /* `walldist per mask q...`: the real ref_phys_wall_distance (serial) on a grid made of the session's elements.
  * element i carries face id 1 + i%3; id j is a viscous wall (bc 4000) iff bit j-1 of mask is set, id 2 is stored
  * with a non-wall bc otherwise, ids 1 and 3 are then absent from the dict.  Prints the distance of the query nodes. */
-static void wall_distance(int per, int mask, int nq, char **qw) {
+static void wall_distance_q(int per, int mask, int nquad, char **quadw, int nq, char **qw);
+static void wall_distance(int per, int mask, int nq, char **qw) { wall_distance_q(per, mask, 0, NULL, nq, qw); }
+/* `walldistq mask nquad <12 doubles per quad> q...`: additionally nquad wall-candidate QUADS (3-D only) taken from
+ * the op line; quad j carries face id 1 + j%3.  ref_phys_local_wall splits each wall quad into two triangles. */
+static void wall_distance_q(int per, int mask, int nquad, char **quadw, int nq, char **qw) {
   REF_GRID grid = NULL;
   REF_DICT dict = NULL;
   REF_NODE ref_node;
@@ -46,6 +50,16 @@ static void wall_distance(int per, int mask, int nq, char **qw) {
     }
     nodes[per] = 1 + e % 3;
     if (REF_SUCCESS == st) st = ref_cell_add(2 == per ? ref_grid_edg(grid) : ref_grid_tri(grid), nodes, &cell);
+  }
+  for (e = 0; REF_SUCCESS == st && e < nquad; e++) {
+    for (v = 0; REF_SUCCESS == st && v < 4; v++) {
+      st = ref_node_add(ref_node, g++, &node);
+      if (REF_SUCCESS != st) break;
+      for (i = 0; i < 3; i++) ref_node_xyz(ref_node, i, node) = h_f(quadw[i + 3 * v + 12 * e]);
+      nodes[v] = node;
+    }
+    nodes[4] = 1 + e % 3;
+    if (REF_SUCCESS == st) st = ref_cell_add(ref_grid_qua(grid), nodes, &cell);
   }
   first_q = (int)g;
   for (e = 0; REF_SUCCESS == st && e < nq; e++) {
@@ -240,6 +254,11 @@ int main(void) {
                valid_i(h_w[2]) && h_i(h_w[2]) >= 1 && h_i(h_w[2]) <= 7 && (h_nw - 3) % 3 == 0 &&
                valid_fs(3, h_nw - 3)) {
       wall_distance(h_w[1][0] - '0', (int)h_i(h_w[2]), (h_nw - 3) / 3, h_w + 3);
+    } else if (0 == strcmp(op, "walldistq") && h_nw >= 3 && valid_i(h_w[1]) && h_i(h_w[1]) >= 1 && h_i(h_w[1]) <= 7 &&
+               valid_i(h_w[2]) && h_i(h_w[2]) >= 0 && h_i(h_w[2]) <= 1000 && h_nw >= 3 + 12 * (int)h_i(h_w[2]) &&
+               (h_nw - 3 - 12 * (int)h_i(h_w[2])) % 3 == 0 && valid_fs(3, h_nw - 3)) {
+      int nquad = (int)h_i(h_w[2]);
+      wall_distance_q(3, (int)h_i(h_w[1]), nquad, h_w + 3, (h_nw - 3 - 12 * nquad) / 3, h_w + 3 + 12 * nquad);
     } else if (0 == strcmp(op, "d2") && valid_fs(1, 9)) {
       double v[9], d;
       int i;
